@@ -10,9 +10,11 @@ package crypto
 // (API >= 2.25, single layer) protocol form, and then mutated: wire-level byte flips of
 // the body / any meta header layer, bit flips in signature values and keys, scheme and
 // key substitution, signature removal, swaps inside a layer / across layers / from a
-// sibling request, layer removal and reordering, re-signing with a foreign key, version
-// flips, verification header stripping with TTL and peer-context variations, FS chain
-// faults.  Every resulting request is shown to the three real entry points.
+// sibling request, one signature duplicated into a second slot (same / other layer),
+// requests put together from the parts of an observed one, layer removal and reordering,
+// re-signing with a foreign key, version flips, verification header stripping with TTL
+// and peer-context variations, FS chain faults.  Every resulting request is shown to the
+// three real entry points.
 //
 // Oracle: vf33RefMustReject is a reference decision written from the property statement
 // and the protocol definition of a verification layer; signatures are re-verified with
@@ -1257,6 +1259,9 @@ func TestVerif_C33(t *testing.T) {
 				} else if oneHopPeer {
 					key += "|forwarded-chain-from-trusted-peer-ttl1"
 				}
+				if mu.dupClass != "" && q.vh != nil {
+					key += "|one-signature-in-two-slots:" + mu.dupClass
+				}
 				r.Violation(key, fmt.Sprintf("%s accepted a request that is not authentically signed (%s) after mutation %s", en, why, mu.Kind), desc(entry))
 			case v.accepted:
 				r.Count("accepted_valid_"+en, 1)
@@ -1425,6 +1430,18 @@ func TestVerif_C33(t *testing.T) {
 		for _, kind := range vf33MutKinds {
 			if kind != "extra-body-sig" && r.Counter("rejected_"+kind) == 0 {
 				r.Inconclusive("no rejected request observed for mutation kind " + kind)
+			}
+		}
+		// one signature standing for two parts: must have been seen refused for N3 witnesses
+		// run by a healthy chain and for the other schemes, in both directions of the chain
+		if r.Violations() == 0 {
+			if n := r.SeenCount("dup_sig_n3_witness_rejected_classes"); n < 12 {
+				r.Inconclusive(fmt.Sprintf("duplicated N3 witnesses were seen refused in only %d of the copy classes (parts x layer relation; want >= 12)", n))
+			}
+			for _, en := range vf33Entries {
+				if n := r.SeenCount("dup_sig_rejected_classes_" + en); n < 12 {
+					r.Inconclusive(fmt.Sprintf("duplicated signatures were seen refused by %s in only %d of the copy classes (want >= 12)", en, n))
+				}
 			}
 		}
 		if r.Counter("exempt_accepted_without_header") == 0 {
